@@ -22,92 +22,58 @@ open Hannibal
 
 def ff {σ : Type} (m : Mon σ) (ls : List Label) : Option Nat := m.firstFail m.init 0 ls
 
+def firstSome : List (Option Nat) → Option Nat
+  | [] => none
+  | some k :: _ => some k
+  | none :: r => firstSome r
+
+/-- the trace-side hypotheses of the theorems, as automata: fresh message numbers and operation ids, unique begins -/
+def wfAll (c : MonCtx) (ls : List Label) : List (Option Nat) :=
+  [ff monWf01 ls, ff (monC02wf c) ls, ff monUniq ls]
+
+/-- Per property: every monitor that formalises a clause of the property's text - the monitors written under the
+    property's own number first, then monitors written under another number whose clause the text also states
+    (all of them proved for every run of the model, under the hypotheses `wfAll` checks on the trace) -/
 def runMonitor (pid : String) (c : MonCtx) (ls : List Label) : Option (Option Nat) :=
   match pid with
-  | "C01" => some (match ff (monC01 c) ls with
-      | some k => some k
-      | none => match ff monWf01 ls with   -- the theorem's hypothesis (fresh message / operation ids) holds of the trace
-        | some k => some k
-        -- "the state is the fold of the handled messages": an incarnation is only replaced by a requested
-        -- restart (monC07; proved)
-        | none => match ff (monC07 c) ls with
-          | some k => some k
-          | none => ff (monC07o c) ls)
-  | "C02" => some (match ff (monC02 c) ls with
-      | some k => some k
-      | none => match ff (monC02t c) ls with
-        | some k => some k
-        | none => match ff (monC02wf c) ls with
-          | some k => some k
-          -- "awaits complete with the termination result": an await returns Ok only after a graceful end (the
-          -- announcement clauses of monC04) and with an error after a failure (monC06); both proved
-          | none => match ff (monC04 c) ls with
-            | some k => some k
-            | none => ff (monC06 c) ls)
-  | "C03" => some (match ff (monC03 c) ls with
-      | some k => some k
-      | none => ff (monC03q c) ls)
-  | "C04" => some (match ff (monC04 c) ls with
-      | some k => some k
-      | none => match ff (monC04q c) ls with
-        | some k => some k
-        | none => ff monWf01 ls)     -- hypothesis of `C04q_holds`: message numbers and operation ids are fresh
-  | "C05" => some (match ff (monC05 c) ls with
-      | some k => some k
-      | none => match ff (monC05q c) ls with
-        | some k => some k
-        | none => match ff (monC05d c) ls with      -- dropped calls are drained too
-          | some k => some k
-          | none => match ff (monC02wf c) ls with   -- hypothesis of `C05q_holds`: operation ids are fresh
-            | some k => some k
-            | none => ff monWf01 ls)                -- hypothesis of `monC05d`: message numbers are fresh
-  | "C06" => some (match ff (monC06 c) ls with
-      | some k => some k
-      | none => (match ff (monC06t c) ls with
-        | some k => some k
-        | none => ff monUniq ls))
-  | "C07" => some (match ff (monC07 c) ls with
-      | some k => some k
-      | none => match ff (monC07o c) ls with
-        | some k => some k
-        | none => ff monWf01 ls)    -- hypothesis of `C07o_holds`: message numbers and operation ids are fresh
-  | "C10" => some (match ff (monC10 c) ls with
-      | some k => some k
-      | none => ff (monC10q c) ls)
-  | "C11" => some (match ff (monC11 c) ls with
-      | some k => some k
-      | none => match ff (monC11p c) ls with
-        | some k => some k
-        | none => match ff (monC11c c) ls with     -- the caller of an abandoned invocation gets an error (proved)
-          | some k => some k
-          | none => ff monWf01 ls)                 -- hypothesis of `C11c_holds`: fresh message numbers and op ids
-  | "C12" => some (match ff (monC12 c.cfg.cap) ls with
-      | some k => some k
-      | none => match ff monC12q ls with         -- every send returns once the actor has caught up ...
-        | some k => some k
-        | none => match ff (monC02 c) ls with     -- ... or terminated (clause (d) of monC02; proved)
-          | some k => some k
-          | none => ff (monC02wf c) ls)           -- operation ids are fresh
-  | "C13" => some (match ff (monC13 c) ls with
-      | some k => some k
-      | none => match ff (monC13q c) ls with
-        | some k => some k
-        | none => match ff (monC13f c) ls with   -- fairness of the tie-break (statistical, trace-only)
-          | some k => some k
-          | none => ff (monC02wf c) ls)   -- hypothesis of `C13q_holds`: operation ids are fresh
-  | "C14" => some (ff (monC14 c) ls)
-  | "C15" => some (match ff (monC15 c) ls with
-      | some k => some k
-      | none => ff (monC15iw c) ls)
-  | "C17" => some (match ff (monC17 c) ls with
-      | some k => some k
-      | none => match ff (monC17n c) ls with
-        | some k => some k
-        | none => match ff (monC17r c) ls with      -- join / consume resolve once the actor has terminated
-         | some k => some k
-         | none => match ff (monC02wf c) ls with     -- hypotheses of `C17n_holds`: fresh operation ids,
-          | some k => some k
-          | none => ff monC17nwf ls)                -- and `consume(self)` is the last use of the owning address
+  | "C01" => some (firstSome ([ff (monC01 c) ls,
+      -- "the state is the fold of the handled messages": an incarnation is only replaced by a requested restart
+      ff (monC07 c) ls, ff (monC07o c) ls] ++ wfAll c ls))
+  | "C02" => some (firstSome ([ff (monC02 c) ls, ff (monC02t c) ls,
+      -- "awaits complete with the termination result": Ok only after a graceful end, an error after a failure
+      ff (monC04 c) ls, ff (monC06 c) ls] ++ wfAll c ls))
+  | "C03" => some (firstSome ([ff (monC03 c) ls, ff (monC03q c) ls] ++ wfAll c ls))
+  | "C04" => some (firstSome ([ff (monC04 c) ls, ff (monC04q c) ls,
+      -- "halt and join resolve only after stopped has finished ... an error / None when the actor failed"
+      ff (monC17 c) ls, ff (monC06 c) ls] ++ wfAll c ls))
+  | "C05" => some (firstSome ([ff (monC05 c) ls, ff (monC05q c) ls,
+      ff (monC05d c) ls,          -- dropped calls are drained too
+      ff (monC03 c) ls] ++ wfAll c ls))   -- "terminates gracefully exactly as after stop"
+  | "C06" => some (firstSome ([ff (monC06 c) ls, ff (monC06t c) ls,
+      -- "join yields None, its timers stop firing"; nothing is handled after a failed start
+      ff (monC17 c) ls, ff (monC10 c) ls, ff (monC03 c) ls] ++ wfAll c ls))
+  | "C07" => some (firstSome ([ff (monC07 c) ls, ff (monC07o c) ls,
+      -- "behaves like a freshly started actor"; "a started error during restart terminates the actor as failed"
+      ff (monC03 c) ls, ff (monC06 c) ls] ++ wfAll c ls))
+  | "C10" => some (firstSome ([ff (monC10 c) ls, ff (monC10q c) ls,
+      ff (monC05 c) ls, ff (monC05q c) ls] ++ wfAll c ls))   -- "timers never keep the actor alive"
+  | "C11" => some (firstSome ([ff (monC11 c) ls, ff (monC11p c) ls,
+      ff (monC11c c) ls,          -- the caller of an abandoned invocation gets an error (proved)
+      -- "state intact afterwards", and no change of incarnation that nobody asked for
+      ff (monC01 c) ls, ff (monC07 c) ls] ++ wfAll c ls))
+  | "C12" => some (firstSome ([ff (monC12 c.cfg.cap) ls,
+      ff monC12q ls,              -- every send returns once the actor has caught up ...
+      ff (monC02 c) ls] ++ wfAll c ls))   -- ... or terminated (clause (d) of monC02)
+  | "C13" => some (firstSome ([ff (monC13 c) ls, ff (monC13q c) ls,
+      ff (monC13f c) ls,          -- fairness of the tie-break (statistical, trace-only)
+      -- "finished and then stopped exactly once and the address resolves Ok"; "each source in its own order"
+      ff (monC03 c) ls, ff (monC04 c) ls, ff (monC01 c) ls] ++ wfAll c ls))
+  | "C14" => some (firstSome ([ff (monC14 c) ls] ++ wfAll c ls))
+  | "C15" => some (firstSome ([ff (monC15 c) ls, ff (monC15iw c) ls] ++ wfAll c ls))
+  | "C17" => some (firstSome ([ff (monC17 c) ls, ff (monC17n c) ls,
+      ff (monC17r c) ls,          -- join / consume resolve once the actor has terminated
+      ff (monC05 c) ls,           -- "otherwise an OwningAddr behaves as a strong handle"
+      ff monC17nwf ls] ++ wfAll c ls))   -- `consume(self)` is the last use of the owning address
   | _ => none
 
 def allMonitors : List String :=
